@@ -138,11 +138,10 @@ func readStatusAttVal(dec *imapwire.Decoder, data *imap.StatusData) error {
 		var num uint32
 		if dec.Number(&num) {
 			ok = true
+			data.AppendLimit = &num
 		} else {
-			ok = dec.ExpectNIL()
-			num = ^uint32(0)
+			ok = dec.ExpectNIL() // no mailbox-specific limit
 		}
-		data.AppendLimit = &num
 	case "DELETED-STORAGE":
 		var storage int64
 		ok = dec.ExpectNumber64(&storage)
